@@ -12,3 +12,5 @@ for c in "$@"; do
 done
 git -C /repo checkout -- .
 git -C /repo status --short | head -3
+# rebuild the harness from the clean tree (the checks above left a build of the changed tree behind)
+(cd /verif/go && GOFLAGS=-mod=mod GOPROXY=off go build -tags verif -o /verif/build/harness . )
